@@ -2,6 +2,7 @@ import Model.Cas.Interp
 import Model.Cas.AutoSimp
 import Model.Cas.ConstFold
 import Model.Cas.OptMod
+import Model.Reduce
 /-!
 # The simplification pipeline (`simplification_backend/simplify.py`, `simplify_stack`)
 -/
@@ -20,14 +21,27 @@ def simplifyWith (strict : Bool) (stack : Stack) : R Stack := do
   let e ← optionalModifications e
   buildAgraphStack e
 
-/-- mirrors `simplification_backend.simplify_stack` (wrapping `int64` arithmetic) -/
-def simplify (stack : Stack) : R Stack := simplifyWith false stack
+/-- the exceptions `simplify_stack` catches (`except (OverflowError, MemoryError)`); `"ovf"` is the
+`OverflowError` of `_checked_integer` / `_checked_integer_power` -/
+def isCaught (e : String) : Bool := e == "ovf" || e == "OverflowError" || e == "MemoryError"
 
-/-- `simplify` together with `overflowed`: did some `int64` operation wrap to a different value?
-(The strict run is identical to the wrapping run up to the first such wrap.) -/
+/-- `reduce_stack(stack)` as an `R` (its failure on an ill-formed stack is an `IndexError`) -/
+def reduceR (stack : Stack) : R Stack :=
+  match Reduce.reduce stack with
+  | some r => pure r
+  | none => throw "IndexError"
+
+/-- mirrors `simplification_backend.simplify_stack`: the CAS, and plain reduction when an integer of the
+simplified expression would not fit in a command array -/
+def simplify (stack : Stack) : R Stack :=
+  match simplifyWith false stack with
+  | .error e => if isCaught e then reduceR stack else throw e
+  | r => r
+
+/-- `simplify` together with `fellBack`: did `simplify_stack` fall back to `reduce_stack`? -/
 def simplifyChecked (stack : Stack) : R Stack × Bool :=
-  match simplifyWith true stack with
-  | .error "ovf" => (simplifyWith false stack, true)
+  match simplifyWith false stack with
+  | .error e => if isCaught e then (reduceR stack, true) else (throw e, false)
   | r => (r, false)
 
 /-- the expression after `automatic_simplify` (debugging) -/
